@@ -367,6 +367,15 @@ def run_shard(d):
                 run(eval_dfxp, {"lang": None, "captions": [{"layout": a, "parts": [("t0", b, "span"), ("t1", None, "plain")]}], "klass": "caption+span"}, fit)
         for a, b, c in itertools.permutations(REDUCED[:6], 3):
             run(eval_dfxp, {"lang": a, "captions": [{"layout": b, "parts": [("t0", c, "span"), ("t1", None, "plain")]}], "klass": "three-levels"}, False)
+        # the same level combinations written to WebVTT (effective layout: node -> caption -> language)
+        wo = [s for s in REDUCED if s[0]]
+        for a, b in itertools.permutations(wo, 2):
+            for fit in (False, True):
+                run(eval_vtt, {"lang": a, "captions": [{"layout": b, "parts": [("t0", None, "plain")]}, {"layout": None, "parts": [("t1", None, "plain")]}], "klass": "vtt-lang+caption"}, fit)
+                run(eval_vtt, {"lang": a, "captions": [{"layout": None, "parts": [("t0", b, "span"), ("t1", None, "plain")]}], "klass": "vtt-lang+span"}, fit)
+                run(eval_vtt, {"lang": None, "captions": [{"layout": a, "parts": [("t0", b, "span"), ("t1", None, "plain")]}], "klass": "vtt-caption+span"}, fit)
+        for a, b, c in itertools.permutations(wo, 3):
+            run(eval_vtt, {"lang": a, "captions": [{"layout": b, "parts": [("t0", c, "span"), ("t1", None, "plain")]}], "klass": "vtt-three-levels"}, False)
     elif k == "pairs":
         for a, b in itertools.product(REDUCED, repeat=2):
             for fit in (False, True):
